@@ -249,12 +249,13 @@ PROPS = {
         scope="optimize_bytecode.rs, Reg::encode, XImm vs X arms, constant folds",
         assumptions=[]),
     "C32": dict(
-        units=["u10_srcloc"], level="model_checking",
+        units=["u10_srcloc", "u17_codegen"], level="model_checking",
         level_text=("create_source_location_tables (real text, Verus, unbounded): each table strictly increasing, starts at 0, and the last entry with start <= i "
                     "carries instruction i's file/line/function id. pc_to_error_location (real vm.rs, Kani, tables <= 4 entries): the location reported for pc is "
                     "that of instruction pc-1 (the VM has already incremented pc; call frames hold return addresses). make_stack_trace lists frames outermost "
                     "first and Display prints the failure location then the frames innermost first (Kani, <= 3 frames)."),
-        level_note=("Lookups bounded by table length. NOT decided: that the translator emits each instruction with the right file/line/function ids; formatting "
+        level_note=("Lookups bounded by table length. That translate_stmt / translate_expr record the node's position before emitting is a SYNTACTIC check (u17, not counted as proof); "
+                    "otherwise NOT decided: that the translator emits each instruction with the right file/line/function ids; formatting "
                     "beyond order; byte-vs-char offsets in line_number_for_index (see C33's finding)."),
         technique="Verus on the real table builder + Kani bounded harnesses on the real lookup / trace code",
         scope="source-location tables and lookups",
